@@ -198,6 +198,20 @@ def coq_props(pid):
     return obs
 
 
+def coq_chk(pid):
+    """thorough tier: re-check props/<pid>.vo and everything it depends on with the independent checker"""
+    rc, out = sh(["coqchk", "-o", "-silent", "-R", ".", "TQ", "TQ.props." + pid], 1800, cwd=COQ)
+    ax = []
+    m = re.search(r"\* Axioms:(.*?)(?:\n\* |\Z)", out, re.S)
+    if m:
+        ax = [a.strip() for a in m.group(1).strip().splitlines() if a.strip() and "<none>" not in a]
+    own = [a for a in ax if a.startswith("TQ.")]
+    ok = rc == 0 and not own
+    return dict(name="coqchk -o TQ.props.%s" % pid, ok=ok, axioms=[],
+                detail=("re-checked; axioms of all loaded libraries: " + ", ".join(ax)[:1500]) if ok else
+                ("coqchk rc=%d own-axioms=%r: %s" % (rc, own, out.strip()[-600:])))
+
+
 def proof_obligations(pid):
     """hygiene + build + property file: list of obligations (each dict(name, ok, detail))."""
     obs = []
@@ -208,6 +222,8 @@ def proof_obligations(pid):
     obs.append(dict(name="make(coq, full .vo build)", ok=ok, axioms=[], detail="ok" if ok else log.strip()[-800:]))
     if ok:
         obs += coq_props(pid)
+        if os.environ.get("VERIF_TIER") == "thorough" and all(o["ok"] for o in obs):
+            obs.append(coq_chk(pid))
     return obs
 
 
